@@ -57,6 +57,8 @@ add(K, "IPMask/24", "mask := net.IPMask{255, 255, 255, 0}\nv := dhcpv4.IPMask(ma
 add(K, "Routes/three", ROUTES + "\nv := dhcpv4.Routes(routes)", ["routes"])
 add(K, "Routes/empty", "routes := []*dhcpv4.Route{}\nv := dhcpv4.Routes(routes)", ["routes"])
 add(K, "Routes/decoded", "buf := []byte{16, 10, 2, 10, 0, 0, 2, 0, 10, 0, 0, 1, 32, 192, 168, 1, 7, 10, 0, 0, 3}\nv := &dhcpv4.Routes{}\nif err := v.FromBytes(buf); err != nil {\n\tpanic(err)\n}", ["buf"])
+add(K, "Routes/host-bits-set", "routes := []*dhcpv4.Route{\n\t{Dest: &net.IPNet{IP: net.IP{10, 17, 0, 0}, Mask: net.CIDRMask(12, 32)}, Router: net.IP{10, 0, 0, 1}},\n\t{Dest: &net.IPNet{IP: net.IP{172, 16, 5, 0}, Mask: net.CIDRMask(22, 32)}, Router: net.IP{10, 0, 0, 2}},\n\t{Dest: &net.IPNet{IP: net.IP{192, 168, 1, 7}, Mask: net.CIDRMask(31, 32)}, Router: net.IP{10, 0, 0, 3}},\n}\nv := dhcpv4.Routes(routes)", ["routes"])
+add(K, "Routes/decoded-host-bits-set", "buf := []byte{12, 10, 17, 10, 0, 0, 1, 22, 172, 16, 5, 10, 0, 0, 2, 31, 192, 168, 1, 7, 10, 0, 0, 3, 1, 0xff, 10, 0, 0, 4}\nv := &dhcpv4.Routes{}\nif err := v.FromBytes(buf); err != nil {\n\tpanic(err)\n}", ["buf"])
 add(K, "Route/one", "v := &dhcpv4.Route{Dest: &net.IPNet{IP: net.IP{10, 2, 0, 0}, Mask: net.CIDRMask(16, 32)}, Router: net.IP{10, 0, 0, 2}}")
 add(K, "Strings/three-unsorted", 'ss := []string{"linuxboot", "b", "a"}\nv := dhcpv4.Strings(ss)', ["ss"])
 add(K, "Strings/decoded", "buf := []byte{1, 'b', 2, 'a', 'c'}\nv := &dhcpv4.Strings{}\nif err := v.FromBytes(buf); err != nil {\n\tpanic(err)\n}", ["buf"])
